@@ -848,3 +848,138 @@ Example m06_hypothesis_satisfiable :
   map (fun s => let '(cs, co, _, _) := s in (find_cond cs CInTransition, co)) (statuses (set_obs_s x_nsfull_case (SetCorr.model_run x_nsfull_case)))
   = [(None, [x_key 1 1])].
 Proof. vm_compute. split; reflexivity. Qed.
+
+(** ** m09d: the pause state reaches the phase objects the pass obtained *)
+Lemma last_seen_untouched nm l : untouched l nm -> forall acc, C15Corr.last_seen nm l acc = acc.
+Proof.
+  induction l as [|e l IH]; intros H acc; [reflexivity|]. inversion H as [|? ? He Hl]; subst.
+  destruct e as [x|ms|p]; cbn [C15Corr.last_seen]; try now apply IH.
+  destruct p as [n r|n [p|]|n pa [p|]|n r|n ok|n ad ok|n cs co ok]; cbn [pev_name] in He; try now apply IH.
+  all: apply N.eqb_neq in He; rewrite He; now apply IH.
+Qed.
+
+Lemma upto_failing_incl phs n q : In q (C15Corr.upto_failing phs n) -> In q phs.
+Proof.
+  induction phs as [|ph phs IH]; cbn; [auto|]. destruct (ph_name ph =? n); cbn.
+  - intros [<-|[]]. now left.
+  - intros [<-|H]; [now left|right; now apply IH].
+Qed.
+
+Lemma upto_failing_split l2 ph n q : forall l1,
+  ph_name ph = n -> In q (C15Corr.upto_failing (l1 ++ ph :: l2) n) -> In q (l1 ++ [ph]).
+Proof.
+  induction l1 as [|h l1 IH]; intros Hn Hq; cbn in *.
+  - rewrite Hn, N.eqb_refl in Hq. exact Hq.
+  - destruct (ph_name h =? n); cbn in Hq.
+    + destruct Hq as [<-|[]]. now left.
+    + destruct Hq as [<-|Hq]; [now left|right; now apply IH].
+Qed.
+
+Lemma names_nodup_spec m : C15Corr.names_nodup m = true -> NoDup (delegated_names m (os_phases m)).
+Proof. apply (nodupb_spec N.eqb N.eqb_eq). Qed.
+
+(** an ObjectSet that has not been given a revision yet has no remote phases recorded *)
+Definition rev_before_remotes (c : scase) : bool :=
+  match find_set (sc_sets c) (sc_kind c) (sc_ns c) (sc_name c) with
+  | Some m => negb (Z.eqb (os_revision m) 0) || is_nil (os_remotes m)
+  | None => true
+  end.
+
+Lemma stopped2_no_reads sw m sw' e nm :
+  negb (Z.eqb (os_revision m) 0) || is_nil (os_remotes m) = true -> stopped2 sw m sw' e ->
+  forall acc, C15Corr.last_seen nm e acc = acc.
+Proof.
+  intros Hh (_ & _ & _ & pre & reads & post & -> & Hpre & Hpost & Hreads) acc.
+  assert (reads = []) as ->.
+  { destruct Hreads as [->|[Hz ->]]; [reflexivity|]. rewrite Hz in Hh. cbn in Hh. destruct (os_remotes m); [reflexivity|discriminate]. }
+  rewrite !last_seen_app, (last_seen_keeps2 _ _ _ Hpre). cbn. now rewrite (last_seen_keeps2 _ _ _ Hpost).
+Qed.
+
+Theorem m09d_sound_partial (c : scase) :
+  rev_before_remotes c = true -> m09d (set_obs_s c (SetCorr.model_run c)) = true.
+Proof.
+  intros Hrb. unfold m09d, C15Corr.m_pause, rev_before_remotes in *. destruct (SetCorr.model_run c) as [[sw e] r] eqn:E.
+  cbn [as_dobs C15Corr.ds_step C15Corr.ds_pre_set set_obs_s sc_sets sc_kind sc_ns sc_name].
+  destruct (find_set (sc_sets c) (sc_kind c) (sc_ns c) (sc_name c)) as [m|] eqn:Ef; [|reflexivity].
+  change (C15Corr.is_activeb m) with (is_activeb m).
+  destruct (is_activeb m) eqn:Ha; [|reflexivity]. cbn [negb orb].
+  destruct (C15Corr.names_nodup m) eqn:Hn; [|reflexivity]. cbn [negb orb].
+  pose proof (is_activeb_spec m Ha) as Hact. apply names_nodup_spec in Hn.
+  assert (Ef' : find_set (sw_sets (sc_world c)) (sc_kind c) (sc_ns c) (sc_name c) = Some m) by exact Ef.
+  unfold SetCorr.model_run in E.
+  apply forallb_forall. intros q Hq. apply filter_In in Hq. destruct Hq as [Hq Hcq].
+  unfold C15Corr.pause_synced, C15Corr.evs. cbn [as_dobs C15Corr.ds_events set_obs_s sc_events].
+  destruct (C15Corr.last_seen (C15Corr.join m q) e None) as [[cur|]|] eqn:Hls; try reflexivity.
+  assert (Hgoal : synced_or_foreign m cur ->
+    negb (controlled_by_uid (op_owners cur) (oi_uid (os_id m))) || op_deleting cur ||
+    Bool.eqb (op_paused cur) (lifecycle_eqb (os_life m) LPaused) ||
+    existsb (fun e0 => match e0 with SPhase (PPause m0 pa _) => (m0 =? C15Corr.join m q) && Bool.eqb pa (lifecycle_eqb (os_life m) LPaused) | _ => false end) e = true).
+  { intros [Hp|Hf]; [|now rewrite Hf]. unfold desired_paused in Hp. rewrite Hp, Bool.eqb_reflx. now rewrite !orb_true_r. }
+  apply Hgoal. clear Hgoal.
+  destruct (objectset_pass_active2 (sc_force c) (sc_world c) _ _ _ m sw e r Ef' Hact E) as [Hs|Hr].
+  { rewrite (stopped2_no_reads _ _ _ _ _ Hrb Hs) in Hls. discriminate. }
+  destruct Hr as (mem1 & sw1 & sw2 & pevs & rem & pr & pre & Hs & _ & _ & _ & _ & _ & Hdup & Hrp & _ & _ & _ & Hpre & Hal).
+  pose proof (after_loop2_coh _ _ _ _ _ _ _ _ _ _ _ _ Hrp Hpre Hal) as Hcoh.
+  pose proof Hs as (Hid & Hphs & Hlife & _).
+  assert (Hstored : find_phase (sw_phases sw2) (phase_kind mem1) (oi_ns (os_id mem1)) (pobj_name mem1 q) = Some cur).
+  { specialize (Hcoh (C15Corr.join m q)). rewrite Hls in Hcoh. unfold pobj_name. rewrite Hid in Hcoh |- *. symmetry. exact Hcoh. }
+  assert (Hsync_same : forall p, synced_or_foreign mem1 p -> synced_or_foreign m p).
+  { intros p. unfold synced_or_foreign, desired_paused. now rewrite Hid, Hlife. }
+  assert (Hother : forall tail, e = pre ++ pevs ++ tail -> (forall nm acc, C15Corr.last_seen nm tail acc = acc) -> In q (os_phases m) -> synced_or_foreign m cur).
+  { intros tail He Htail Hqin. apply Hsync_same. rewrite <- Hphs in Hqin.
+    assert (Hnd : NoDup (delegated_names mem1 (os_phases mem1))) by (rewrite (names_same _ _ Hs); exact Hn).
+    destruct (rpm_touched_synced (sc_force c) mem1 _ _ _ _ _ _ _ _ _ _ Hrp Hnd q Hqin Hcq) as [Hu|(p & Hp & Hsy)].
+    - exfalso. rewrite He, !last_seen_app, (last_seen_keeps2 _ _ _ Hpre), Htail in Hls.
+      unfold pobj_name in Hu. rewrite Hid in Hu. fold (C15Corr.join m q) in Hu. rewrite (last_seen_untouched _ _ Hu) in Hls. discriminate.
+    - unfold phase_obj_of in Hp. rewrite Hp in Hstored. now injection Hstored as <-. }
+  assert (Hq_all : forall fp, In q (match fp with Some n0 => C15Corr.upto_failing (os_phases m) n0 | None => os_phases m end) -> In q (os_phases m)).
+  { intros [n0|] H; [eapply upto_failing_incl; eauto|exact H]. }
+  unfold after_loop2 in Hal. destruct pr as [e0| | |ctrlof failed].
+  - destruct (is_collision e0).
+    + destruct Hal as (ok & He & _). apply (Hother [status_ev (fail_mem (set_remotes mem1 rem) RCollisionDetected) ok] He); [reflexivity|eapply Hq_all; eauto].
+    + destruct Hal as [He _]. rewrite <- (app_nil_r pevs) in He. apply (Hother [] He); [reflexivity|eapply Hq_all; eauto].
+  - destruct Hal as [He _]. rewrite <- (app_nil_r pevs) in He. apply (Hother [] He); [reflexivity|eapply Hq_all; eauto].
+  - destruct Hal as (ok & He & _). apply (Hother [status_ev (fail_mem (set_remotes mem1 rem) RPreflightError) ok] He); [reflexivity|eapply Hq_all; eauto].
+  - destruct Hal as (ok & He & _).
+    match type of Hq with context [C15Corr.failing_phase ?o] => assert (Hfp : C15Corr.failing_phase o = failed) end.
+    { unfold C15Corr.failing_phase, C15Corr.evs. cbn [as_dobs C15Corr.ds_events set_obs_s sc_events]. rewrite He.
+      rewrite !app_assoc, flat_map_app. cbn [flat_map status_ev_f app]. apply last_last. }
+    rewrite Hfp in Hq.
+    pose proof (dup_zero_nodup _ Hdup) as Hnd1.
+    destruct (rpm_passed (sc_force c) mem1 _ _ _ _ _ _ _ _ _ _ _ Hrp Hnd1) as (ppre & ppost & Hsplit & Hpassed & Hfailed & _ & _).
+    rewrite Hphs in Hsplit. apply Hsync_same.
+    assert (Hcase : In q ppre \/ exists ph post', ppost = ph :: post' /\ q = ph /\ fails sw2 mem1 (as_owner mem1) ph).
+    { destruct failed as [nf|].
+      - destruct Hfailed as (ph & post' & -> & Hname & Hf). rewrite Hsplit in Hq.
+        apply (upto_failing_split post' ph nf q ppre Hname) in Hq. apply in_app_or in Hq. destruct Hq as [Hq|[<-|[]]]; [now left|right; eauto].
+      - subst ppost. rewrite app_nil_r in Hsplit. left. now rewrite <- Hsplit. }
+    destruct Hcase as [Hqp|(ph & post' & _ & -> & Hf)].
+    + pose proof (Hpassed q Hqp) as Hpq. unfold passed in Hpq. rewrite Hcq in Hpq. destruct Hpq as (p & Hp & _ & _ & Hsy).
+      unfold phase_obj_of in Hp. rewrite Hp in Hstored. injection Hstored as <-. now left.
+    + unfold fails in Hf. rewrite Hcq in Hf. destruct Hf as (p & active & Hp & _ & _ & Hsy).
+      unfold phase_obj_of in Hp. rewrite Hp in Hstored. injection Hstored as <-. now left.
+Qed.
+
+(** *** The refuting case: an ObjectSet that waits for its previous revision (status.revision still 0) but - which no
+    run of the controller produces - already has a remote phase recorded reads that phase object for the Paused
+    condition and does not pause-patch it: the monitor expects every phase object the pass obtained to be synced. *)
+Definition x_prev_set : oset :=
+  {| os_id := {| oi_kind := KObjectSet; oi_ns := 1; oi_name := 9; oi_uid := 99 |}; os_rv := 4; os_gen := 1; os_deleting := false;
+     os_fin := true; os_orphan := false; os_pkg := 0; os_life := LActive; os_phases := []; os_prev := []; os_revision := 0;
+     os_conds := []; os_ctrlof := []; os_remotes := [] |}.
+Definition x_requeue_case : scase :=
+  case_of false (x_world [] [x_remote_set LPaused [] [(10001, 300)] 0 [9]; x_prev_set] [x_pobj 10001 false [] [x_avail 1]]) KObjectSet 1 10.
+
+Theorem m09d_refuted :
+  exists c, rev_before_remotes c = false /\ m09d (set_obs_s c (SetCorr.model_run c)) = false.
+Proof. exists x_requeue_case. vm_compute. split; reflexivity. Qed.
+
+(** the hypothesis holds on a paused ObjectSet with a revision whose phase object is not paused yet: the pass sends
+    the pause patch *)
+Definition x_pause_case : scase :=
+  case_of false (x_world [] [x_remote_set LPaused [] [(10001, 300)] 1 []] [x_pobj 10001 false [] [x_avail 1]]) KObjectSet 1 10.
+Example m09d_hypothesis_satisfiable :
+  rev_before_remotes x_pause_case = true /\
+  existsb (fun e => match e with SPhase (PPause 10001 true _) => true | _ => false end)
+          (sc_events (set_obs_s x_pause_case (SetCorr.model_run x_pause_case))) = true.
+Proof. vm_compute. split; reflexivity. Qed.
